@@ -83,6 +83,9 @@ def bundle_specs():
         # 'frag': a route MTU below the bundle size (C11 is quantified over all transmit routes): the bundle leaves as
         # fragments, each of which still shows the received primary block fields
         'mtu': st.sampled_from([None, None, 100000, 'frag', 'frag']),
+        # the convergence layer raises at hand-over for this bundle (its service went away): nothing of it leaves the
+        # node, and the bundles after it are forwarded as if it had never been there
+        'cl_fails': st.sampled_from([False, False, False, False, True]),
         'src': strat.eids(allow_none=False), 'dest': st.sampled_from([['dtn', '//far/away'], ['ipn', 5, 6]]),
         'rpt': strat.eids(),
     })
@@ -131,9 +134,21 @@ def forward_one(node, case, out):
         # room for the blocks that forwarding adds and for about half of the payload
         mtu = len(wire_in) + 40 - plen // 2 if plen >= 64 and not int(case['flags']) & r.FLAG_NO_FRAGMENT else None
     node.set_mtu(0, mtu)
+    node.cl.fail = bool(case.get('cl_fails'))
     err = node.receive(wire_in, run=False)
     if err is not None:
+        node.cl.fail = False
         out.fail('receive-raises:%s' % type(err).__name__, 'receiving a well-formed bundle raised: %s' % err)
+        return out
+    if case.get('cl_fails'):
+        simloop.advance_to(simloop.CLOCK.now_ms + int(case.get('wait_ms', 0)))
+        node.run()
+        node.cl.fail = False
+        node.run()
+        node._seen_esc = list(node.escapes())
+        out.label('cl-fails')
+        if len(node.sent()) != n_before:
+            out.fail('sent-although-cl-failed', 'the CL refused the bundle, %d bundle(s) were handed over all the same' % (len(node.sent()) - n_before))
         return out
     simloop.advance_to(simloop.CLOCK.now_ms + int(case.get('wait_ms', 0)))
     now_at_forward = NOW_DTN + simloop.CLOCK.now_ms
